@@ -28,6 +28,9 @@ RULE = ('LARGE sparse family straddling the size switch of eigenspectrum (999/10
         'non-trivial when the matrix is not already row-stochastic; distinct by (matrix, builder, '
         'container, prior, flag)')
 ASSUMPTIONS = [
+    'the >= 1000-state sparse family is correspondence-only: the Lean model has no ARPACK/LAPACK (the solver is the '
+    'parameter of C04_solver_contract); its populations are checked against a direct sparse solve that certifies '
+    'its own residual, stationarity within 1e-8; builders.mle is not run on it (pure-Python O(n^2) sweeps)',
     'LAPACK eig returns a left eigenvector for eigenvalue 1 (C04_solver_contract; normalize_stationary_partial / normalize_stationary_of_solver_contract); '
     'the run compares its normalised output with the exact stationary vector (Gauss-Jordan over Rat, '
     'accepted only with an exact residual certificate) within 1e-9',
